@@ -1,7 +1,7 @@
 (* Run-level theorems, part 3 (property C01): the "descent" frame.
    fr0 s s' : every lock record stored in s' was stored in s under the same reference, with the same key and the same
-              command, and if it holds something in s' (0 < l_locked) it already held something in s.
-              Records may be freed; none is created; no record starts to hold.
+              command, and its depth l_locked in s' is at most its depth in s.
+              Records may be freed; none is created; no record starts to hold or gains a level.
    Every helper of the engine except GetOrNewLock (creates a record), AddLock (l_locked := 1), the re-entrant
    increment and UpdateLockedLock (replaces the command) satisfies it, in every state.  All lemmas are in
    right-extension form `fr0 s x -> fr0 s (op x)` so that they chain by eauto (same scheme as LocalFrames.msub). *)
@@ -10,15 +10,15 @@ From Slock Require Import Engine.Types Engine.Queues Engine.Timers Engine.Engine
 Open Scope N_scope.
 
 Definition same3 (l l' : lockrec) : Prop :=
-  l_key l' = l_key l /\ l_cmd l' = l_cmd l /\ (0 < l_locked l' -> 0 < l_locked l).
+  l_key l' = l_key l /\ l_cmd l' = l_cmd l /\ l_locked l' <= l_locked l.
 
 Definition fr0 (s s' : db) : Prop :=
   forall r0 l', aget (store s') r0 = Some l' -> exists l, aget (store s) r0 = Some l /\ same3 l l'.
 
 Lemma same3_refl l : same3 l l.
-Proof. unfold same3. auto. Qed.
+Proof. unfold same3. repeat split; auto. lia. Qed.
 Lemma same3_trans a b c : same3 a b -> same3 b c -> same3 a c.
-Proof. unfold same3. intros (A1 & A2 & A3) (B1 & B2 & B3). repeat split; try congruence. auto. Qed.
+Proof. unfold same3. intros (A1 & A2 & A3) (B1 & B2 & B3). repeat split; try congruence. lia. Qed.
 
 Create HintDb frdb.
 
@@ -80,7 +80,7 @@ Qed.
 (* side conditions of fr0_updl for record updates written with the RecordUpdate notation *)
 Ltac same3_solve :=
   let l := fresh "l" in let H := fresh "H" in
-  intros l; unfold same3; cbn; repeat split; auto; try (intros H; cbn in H; lia).
+  intros l; unfold same3; cbn; repeat split; auto; try lia.
 
 #[export] Hint Resolve fr0_refl fr0_updm fr0_setm fr0_updc fr0_bump fr0_remove_mgr : frdb.
 #[export] Hint Extern 1 (fr0 _ (set _ _ ?x)) => (eapply (fr0_store_eq _ x); [reflexivity|]) : frdb.
@@ -101,7 +101,7 @@ Lemma fr0_unref s x r : fr0 s x -> fr0 s (unref x r).
 Proof.
   intros H. unfold unref. destruct (aget (store x) r) as [l|] eqn:E; auto. cbv zeta.
   assert (H1 : fr0 s (setl x r (l <| l_refc := dec8 (l_refc l) |>))).
-  { eapply fr0_setl_upd; eauto. unfold same3. cbn. auto. }
+  { eapply fr0_setl_upd; eauto. unfold same3. cbn. repeat split; auto. lia. }
   destruct (dec8 (l_refc l) =? 0); frs.
 Qed.
 #[export] Hint Resolve fr0_unref : frdb.
@@ -258,7 +258,11 @@ Lemma fr0_updl_dec8 s x r :
   (1 <? l_locked (getl x r)) = true -> fr0 s x -> fr0 s (updl x r (fun l => l <| l_locked := dec8 (l_locked l) |>)).
 Proof.
   intros Hg. apply fr0_updl_at. intros l E. unfold getl in Hg. rewrite E in Hg. apply N.ltb_lt in Hg.
-  unfold same3. cbn. repeat split; auto. intros _. lia.
+  unfold same3. cbn. repeat split; auto. unfold dec8.
+  destruct (N.le_gt_cases (l_locked l) 256) as [B|B].
+  - replace (l_locked l + 255) with ((l_locked l - 1) + 1 * 256) by lia. rewrite N.mod_add by lia.
+    pose proof (N.mod_le (l_locked l - 1) 256). lia.
+  - pose proof (N.mod_upper_bound (l_locked l + 255) 256). lia.
 Qed.
 
 Lemma fr0_unlock_step s conn c s' ev w : unlock_step s conn c = (s', ev, w) -> fr0 s s'.
